@@ -5,14 +5,17 @@
    Full statements that are FALSE on the faithful model of the tree are refuted with a
    concrete witness (`_refuted`) and proved for the trees that avoid the defective nodes
    (`_partial`):
-     fold_agrees_with_runtime      refuted by  E::C < 9   (folded, but no opcode: the emitter
-                                               aborts on the variable version);
      fold_div0_is_runtime_fault    refuted by  false && (1/0 == 0), true ? 1 : 1/0
                                                (rejected although never evaluated).
    fold_never_crashes holds for ALL trees since /repo 355bd8f (the enum arms of
    expr_div_constred / expr_mod_constred fold a / -1 as -a and a % -1 as 0 like the int arms;
    before, E::M / -1 with M = INT_MIN was a SIGFPE inside the compiler and the statement was
-   refuted); enum_min_div_wraps_both_sides is the regression statement. *)
+   refuted); enum_min_div_wraps_both_sides is the regression statement.
+   fold_agrees_with_runtime holds for ALL well-typed trees since /repo 2ca194c + 053e24b (an item
+   enumerator operand is typed int, so < <= > >= % == != on enum operands have the int
+   opcodes; before, E::C < 9 was folded while the variable version made the emitter abort and
+   the statement carried the side condition emit_ok): well_typed_is_emitted, and
+   enum_compare_folds_like_runtime is the regression statement. *)
 From Coq Require Import ZArith Bool List Lia.
 From NV Require Import Arith.NumTy Arith.Bits Arith.IntOps Arith.FloatOps Arith.VMOps
   Arith.Promote Arith.RtEval Arith.Constred Arith.IntOpsProofs.
@@ -67,6 +70,42 @@ Proof. intros. cbn [run]. now rewrite H0, (sel_un_congr o a a' H). Qed.
 Lemma run_conv_congr : forall c a a', ty_of a' = ty_of a -> run a' = run a ->
   run (EConv c a') = run (EConv c a).
 Proof. intros. cbn [run]. now rewrite H0, (sel_conv_congr c a a' H). Qed.
+
+(* ---- every accepted node has an opcode (since /repo 2ca194c) ---------------------------- *)
+
+Lemma emit_bin_total : forall o l r t,
+  check_bin o l r = Some (t, None, None) -> is_shortcircuit o = false ->
+  is_some (emit_bin o l r t) = true.
+Proof.
+  intros o l r t H Hs. destruct o, l, r; cbn in H; try discriminate H; inversion H; subst;
+    cbn in Hs; try discriminate Hs; reflexivity.
+Qed.
+
+Lemma emit_un_total : forall o t res, check_un o t = Some res -> is_some (emit_un o t res) = true.
+Proof.
+  intros o t res H. destruct o, t; cbn in H; try discriminate H; inversion H; subst; reflexivity.
+Qed.
+
+Theorem well_typed_is_emitted : forall e t, ty_of e = Some t -> emit_ok e = true.
+Proof.
+  induction e as [l | o a IHa | o a IHa b IHb | c a IHa | a IHa | c IHc a IHa b IHb];
+    intros t H; cbn [emit_ok].
+  - reflexivity.
+  - cbn [ty_of] in H. destruct (ty_of a) as [ta|] eqn:Ta; [|discriminate].
+    rewrite (IHa ta eq_refl). unfold sel_un. rewrite Ta, H. cbn. apply (emit_un_total _ _ _ H).
+  - destruct (ty_of_bin_inv _ _ _ _ H) as (ta & tb & Ta & Tb & Ck).
+    rewrite (IHa ta Ta), (IHb tb Tb). cbn. unfold sel_bin. rewrite Ta, Tb, Ck.
+    destruct (is_shortcircuit o) eqn:S; [reflexivity|]. cbn. apply (emit_bin_total _ _ _ _ Ck S).
+  - cbn [ty_of] in H. destruct (ty_of a) as [ta|] eqn:Ta; [|discriminate].
+    rewrite (IHa ta eq_refl). unfold sel_conv. rewrite Ta. cbn.
+    unfold check_conv in H. unfold emit_conv. destruct (ty_eqb ta (conv_src c)); [reflexivity | discriminate H].
+  - cbn [ty_of] in H. exact (IHa t H).
+  - cbn [ty_of] in H. destruct (ty_of c) as [tc|] eqn:Tc; [|discriminate].
+    destruct tc; try discriminate.
+    destruct (ty_of a) as [ta|] eqn:Ta; [|discriminate].
+    destruct (ty_of b) as [tb|] eqn:Tb; [|discriminate].
+    rewrite (IHc _ eq_refl), (IHa _ eq_refl), (IHb _ eq_refl). reflexivity.
+Qed.
 
 (* ---- one node over literal children --------------------------------------------------- *)
 
@@ -368,14 +407,14 @@ Lemma rt_eval_run : forall e, emit_ok e = true -> rt_eval e = run e.
 Proof. intros e H. unfold rt_eval. now rewrite H. Qed.
 
 (* whatever the reducer leaves behind computes, at run time, exactly what the original
-   expression computes — same value bit for bit, same fault, same type.  The only side
-   condition: every node of e has an opcode (emit_ok; fails only for the enum cells of
-   Promote.emit_bin for which front/emit.c aborts). *)
-Theorem fold_agrees_with_runtime_partial : forall e t e',
-  ty_of e = Some t -> emit_ok e = true -> fold e = FOk e' ->
+   expression computes — same value bit for bit, same fault, same type — for every tree the
+   typechecker accepts (no side condition left: every accepted node has an opcode). *)
+Theorem fold_agrees_with_runtime : forall e t e',
+  ty_of e = Some t -> fold e = FOk e' ->
   ty_of e' = Some t /\ rt_eval e' = rt_eval e.
 Proof.
-  intros e t e' Hty He Hf.
+  intros e t e' Hty Hf.
+  pose proof (well_typed_is_emitted e t Hty) as He.
   pose proof (fold_sound e t Hty He) as S. rewrite Hf in S. cbn [sound_for] in S.
   destruct S as (T & E & R & _). split; [assumption|].
   now rewrite (rt_eval_run e' E), (rt_eval_run e He).
@@ -383,11 +422,11 @@ Qed.
 
 (* in particular a folded literal IS the run-time value *)
 Theorem fold_literal_is_runtime_value : forall e t l,
-  ty_of e = Some t -> emit_ok e = true -> fold e = FOk (ELit l) ->
+  ty_of e = Some t -> fold e = FOk (ELit l) ->
   rt_eval e = Val (lit_val l) /\ lit_ty l = t.
 Proof.
-  intros e t l Hty He Hf.
-  destruct (fold_agrees_with_runtime_partial e t (ELit l) Hty He Hf) as [T R].
+  intros e t l Hty Hf.
+  destruct (fold_agrees_with_runtime e t (ELit l) Hty Hf) as [T R].
   split; [now rewrite <- R | now inversion T].
 Qed.
 
@@ -444,10 +483,11 @@ Qed.
 (* every tree without lazily evaluated nodes folds completely: to a literal of its type or to
    the division-by-zero rejection *)
 Theorem fold_total : forall e t,
-  ty_of e = Some t -> emit_ok e = true -> strict e = true ->
+  ty_of e = Some t -> strict e = true ->
   fold e = FReject \/ exists l, fold e = FOk (ELit l) /\ lit_ty l = t.
 Proof.
-  intros e t Hty He Hs.
+  intros e t Hty Hs.
+  pose proof (well_typed_is_emitted e t Hty) as He.
   pose proof (fold_sound e t Hty He) as S.
   destruct (fold e) as [e'| |]; [|left; reflexivity | exfalso; exact S].
   right. cbn [sound_for] in S. destruct S as (T & _ & _ & L).
@@ -455,10 +495,11 @@ Proof.
 Qed.
 
 Theorem fold_div0_is_runtime_fault_partial : forall e t,
-  ty_of e = Some t -> emit_ok e = true -> strict e = true ->
+  ty_of e = Some t -> strict e = true ->
   fold e = FReject -> rt_eval e = Fault DivisionByZero.
 Proof.
-  intros e t Hty He Hs Hf.
+  intros e t Hty Hs Hf.
+  pose proof (well_typed_is_emitted e t Hty) as He.
   pose proof (fold_sound e t Hty He) as S. rewrite Hf in S. cbn [sound_for] in S.
   rewrite (rt_eval_run e He). exact (S Hs).
 Qed.
@@ -512,19 +553,12 @@ Definition ex_int_min_mod : expr := EBin Mod (ELit (LInt (-2147483648))) (ELit (
 Definition ex_enum_min_div : expr := EBin Div (ELit (LEnum (-2147483648))) (ELit (LInt (-1))).
 Definition ex_enum_min_mod : expr := EBin Mod (ELit (LEnum (-2147483648))) (ELit (LEnum (-1))).
 
-(* the full statement "fold e = literal v  ->  the VM computes v" is false: the comparison of
-   an enum item with an int is folded, but the same comparison on variables has no opcode *)
-Theorem fold_agrees_with_runtime_refuted :
-  exists e t l, ty_of e = Some t /\ fold e = FOk (ELit l) /\ rt_eval e <> Val (lit_val l).
-Proof.
-  exists ex_enum_lt, TBool, (LBool true).
-  split; [reflexivity|]. split; [vm_compute; reflexivity|].
-  vm_compute. intro H. discriminate H.
-Qed.
-
-Theorem enum_compare_is_not_emitted :
+(* regression statement for /repo 2ca194c: the comparison of an enum item with an int is folded
+   AND the same comparison on variables is the int comparison of the index (it used to make the
+   emitter abort: no opcode for (enumtype, int)) *)
+Theorem enum_compare_folds_like_runtime :
   ty_of ex_enum_lt = Some TBool /\ fold ex_enum_lt = FOk (ELit (LBool true)) /\
-  rt_eval ex_enum_lt = Crash EmitAssert.
+  rt_eval ex_enum_lt = Val (VInt 1).
 Proof. repeat split; vm_compute; reflexivity. Qed.
 
 (* regression statements for the defects fixed in the tree *)
@@ -544,7 +578,7 @@ Proof. repeat split; vm_compute; reflexivity. Qed.
 
 (* the statement "rejected as constant division by zero -> the VM faults" is false *)
 Theorem fold_div0_is_runtime_fault_refuted :
-  exists e t v, ty_of e = Some t /\ emit_ok e = true /\ fold e = FReject /\ rt_eval e = Val v.
+  exists e t v, ty_of e = Some t /\ fold e = FReject /\ rt_eval e = Val v.
 Proof.
   exists ex_and_div0, TBool, (VInt 0). repeat split; vm_compute; reflexivity.
 Qed.
@@ -557,10 +591,11 @@ Proof. repeat split; vm_compute; reflexivity. Qed.
    or enumerator) is folded to the value the VM computes on variables; it used to be a SIGFPE
    inside the compiler *)
 Theorem enum_min_div_wraps_both_sides :
-  ty_of ex_enum_min_div = Some TInt /\ emit_ok ex_enum_min_div = true /\
+  ty_of ex_enum_min_div = Some TInt /\
   fold ex_enum_min_div = FOk (ELit (LInt (-2147483648))) /\
   rt_eval ex_enum_min_div = Val (VInt (-2147483648)) /\
-  fold ex_enum_min_mod = FOk (ELit (LInt 0)).
+  ty_of ex_enum_min_mod = Some TInt /\
+  fold ex_enum_min_mod = FOk (ELit (LInt 0)) /\ rt_eval ex_enum_min_mod = Val (VInt 0).
 Proof. repeat split; vm_compute; reflexivity. Qed.
 
 (* ---- elaboration produces trees the theorems apply to ------------------------------------ *)
